@@ -14,7 +14,7 @@ RULE = ('histories of 3-9 calls on one image obtained through ClientConductor::o
         'term after it), written straight into the log memory and made visible in steps between calls (grow); start offsets 0 / '
         'aligned random / end of term; term counts {0,1,2,3,32767,32768,65535,65536,2^31-2,random} x initial term ids '
         '{0,1,-1,MIN,MAX,random}; all six flavours + set_position/close/position, fragment limits {0,1,2,3,MAX,-1}, position '
-        'bounds before / inside a frame / on a boundary / beyond the term / more than 2^32 below the position, block limits '
+        'bounds before / inside a frame / on a boundary / beyond the term / more than 2^32 below the position / negative / i64::MIN / i64::MAX, block limits '
         '{0,31,32,frame sizes,term length,2^30,MAX}, random handler scripts of Abort/Break/Commit/Continue; a malformed stream '
         '(wrong term id, odd types/flags, short frames, unaligned padding); debug and release builds. '
         'non-trivial = a history with at least one call that may deliver and at least two frames; distinct = distinct case descriptions')
@@ -156,7 +156,7 @@ def gen_case(rng, malformed=False, big_gap=False):
         if r < 0.45:
             return [1, rng.choice([0, 1, 31, 32, 33, 64, 96, 100, 128, 500, 4096, -1, -32, -64, tl, 2 * tl])]
         if r < 0.55:
-            return [0, rng.choice([0, 1, term_end, term_end + 32, term_end - 32, MAX64, MAX64 - 1])]
+            return [0, rng.choice([0, 1, term_end, term_end + 32, term_end - 32, MAX64, MAX64 - 1, -1, -2**32, -2**63, -2**63 + 1])]
         if r < 0.65:
             return [0, max(0, pos0 + rng.choice([0, 32, 64, 96, 128, 160, 256, 1000]))]
         if r < 0.80 or not big_gap:
